@@ -94,7 +94,7 @@ fn hir_to_ast(h: &Hir) -> Option<Value> {
             json!({"k":"look","l":n})
         }
         HirKind::Repetition(r) => {
-            json!({"k":"rep","a":hir_to_ast(&r.sub)?,"min":r.min,"max":r.max.unwrap_or(99),"g":r.greedy})
+            json!({"k":"rep","a":hir_to_ast(&r.sub)?,"min":r.min,"max":r.max.unwrap_or(9999),"g":r.greedy})
         }
         HirKind::Capture(c) => hir_to_ast(&c.sub)?,
         HirKind::Concat(xs) => {
